@@ -8,10 +8,14 @@
    nested [if]/[case] of hook::_get_possible_handler_names on the raw fields that the
    jq calls extract from the current context, and (2) the loop of hook::run with the
    first-available search and the effect of errexit on a failing handler.  Names are
-   atoms (byte strings): the word splitting / pathname expansion that bash applies to
-   the unquoted ${HANDLERS} is NOT modelled, so the model speaks about binding names
-   without blanks and glob characters only (the correspondence feeds other names in a
-   separate stream that is reported for triage, never judged).
+   byte strings of ANY content: since the repair a686454 hook.sh keeps the candidate names
+   one per line (`mapfile -t names <<< "$HANDLERS"`, empty lines skipped) and quotes every
+   expansion (echo "__on_...::${BINDING}", type "$handler", ("$handler")), so bash applies
+   neither word splitting nor pathname expansion to a name: a name with blanks, tabs, glob
+   characters, quotes, backslashes or $ is one candidate, compared as it is.  Only a newline
+   inside a name would still separate two lines (and a NUL does not pass a command
+   substitution): strings with those bytes are outside the correspondence (C19_Corr.outside).
+   (C19_WModel.v is a record of the word-splitting behaviour before the repair.)
 
    HANDLER BODIES (second half of this file).  A handler is a bash function; what makes
    it "fail" under the strict mode of shell_lib.sh is not only an explicit `return N`:
